@@ -153,6 +153,22 @@ def step (line : String) : String :=
       | .ok rows => showDRows rows
       | r => r.tag
     | _, _ => "bad-op"
+  | ["plogspec", agg, desc, ifl, bsp, sh, refs, topics, vdesc, ctx, impl] =>
+    -- oracle: the rows the Lean Spec demands for this log vs what the implementation produced
+    match parseDecl agg desc ifl bsp sh, Abi.parseValDesc vdesc with
+    | some d, some v =>
+      match Abi.eventAbiType d.inputs with
+      | .ok t =>
+        let dat := Abi.enc t v
+        let lg : Row.Log := { topics := (splitList topics ",").map (fun h => (hexArg h).getD []), data := dat }
+        if !Abi.WellTyped t v || !t.inDomain then "ok"
+        else match Row.specRows (parseRefs refs) d (parseCtx ctx) lg t (if dat.isEmpty then none else some v) with
+          | .unspecified => "ok"
+          | .rows rs =>
+            let want := (showDRows rs).replace " " "#"
+            if want == impl then "ok" else s!"viol spec demands {want}"
+      | _ => "ok"
+    | _, _ => "bad-op"
   | ["ptx", agg, bsp, refs, ctx] =>
     match parseDecl agg "0" "_" bsp "-" with
     | some d => match Row.processTx (parseRefs refs) d (parseCtx ctx) with
